@@ -363,6 +363,14 @@ def section8():
         'C17d': 'the translator now also generates a theorem for every argument a kernel hands to another kernel (extent at least what the callee documents; 160 more theorems), and the shared generator restarts both IK kernels at their own solution so that both halves of the start test are evaluated under bounds checking',
         'C18d': 'unitSphere is run for every grid size k = 1..45 (n = k*k covers all counts up to 2000) and fiboSphere for every count up to 64 plus a spread',
         'C19d': 'message palette includes a falsy message (0; an empty datagram on the UDP hops): a message that is falsy in Python is still a message',
+        'C06e': 'the velocity / statics / Jacobian queries are repeated with the joint vector given BY KEYWORD while the arm\'s stored state is elsewhere, and compared with the positional form',
+        'C07e': 'the start vector is handed over in three forms: a private copy, omitted (the arm\'s stored state), or the very array last given to FK (stored state and start may share memory)',
+        'C08e': 'joint-rate vectors with exact zeros (some joints at rest, or a single joint moving) in the shared dynamics generator and at Arm level',
+        'C10e': 'new operation fk_at: FK over a bottom plate pose given by the caller; the model was generalised (fkAt, Op.fkAt; theorems fkAt_coh, fkAt_sound) and agrees with the real method on every history',
+        'C11e': 'inverseJacobian is also called with BOTH plate poses given by the caller (the platform placed elsewhere, same relative pose): correspondence on the joints of those poses and the derivative clause there',
+        'C18e': 'gap closing with the goal NEARER than the step',
+        'C04e': '(caught by the correspondence only at first) constructor-form poses are now also USED as operands of localToGlobal / globalToLocal and compared with ref*T / inv(ref)*T, which gives the failing input',
+        'C17e': '(caught by the generated call-site theorem only at first) the bounds-checked worker now exercises every optional-argument form of the index-taking calls (protect=True), which gives the failing input',
         'C11': 'small platforms placed up to 12 from the origin so that cond(invJ) reaches 1e3..1e4 (the upper part of the property\'s range)',
     }
     for d in sorted(glob.glob(os.path.join(V, 'seeded', '*', 'meta.json'))):
